@@ -418,28 +418,28 @@ Proof.
   - destruct s as [|c t].
     { cbn in H. inversion H; subst. exists []. rewrite !app_nil_r. split; [reflexivity|]. split; [exact Hok|]. right. reflexivity. }
     cbn [skip_ignored] in H.
-    assert (Hstep : forall k (chunk : list N) cu1 rest, s' = s' ->
+    assert (Hstep : forall (chunk : list N) cu1 rest,
               c :: t = chunk ++ rest -> (length rest <= n)%nat ->
               cur_ok (pre ++ chunk) cu1 -> no_split (pre ++ chunk) rest ->
               skip_ignored cu1 rest = (cu', s') ->
               exists ign, c :: t = ign ++ s' /\ cur_ok (pre ++ ign) cu' /\ no_split (pre ++ ign) s').
-    { intros _ chunk cu1 rest _ Hsplit Hlen Hok1 Hns1 Hrec.
+    { intros chunk cu1 rest Hsplit Hlen Hok1 Hns1 Hrec.
       destruct (IH rest (pre ++ chunk) cu1 cu' s' Hlen Hok1 Hns1 Hrec) as (ign & E & Ho & Hn').
-      exists (chunk ++ ign). rewrite <- !app_assoc in *. rewrite Hsplit, E. rewrite <- app_assoc.
-      repeat split; assumption. }
+      exists (chunk ++ ign). split; [rewrite Hsplit, E, app_assoc; reflexivity|].
+      rewrite app_assoc. split; assumption. }
     destruct (is_ws_ignored c) eqn:Ew.
     { assert (Hc1 : (c =? CR) = false /\ (c =? LF) = false).
       { unfold is_ws_ignored in Ew. unfold CR, LF.
         split; apply N.eqb_neq; intros ->; vm_compute in Ew; discriminate. }
       destruct Hc1 as [Hc1 Hc2].
-      apply (Hstep 0%nat [c] _ t eq_refl eq_refl ltac:(cbn in Hn; lia)
+      apply (Hstep [c] _ t eq_refl ltac:(cbn in Hn; lia)
                (cur_ok_plain pre cu c Hok Hc1 Hc2)); [|exact H].
       left. rewrite lastcr_snoc. exact Hc1. }
     destruct (c =? LF) eqn:El.
     { apply N.eqb_eq in El. subst c.
       assert (Hlc : lastcr false pre = false).
       { destruct Hns as [Hx|Hx]; [exact Hx|]. cbn [peek_is] in Hx. rewrite N.eqb_refl in Hx. discriminate. }
-      apply (Hstep 0%nat [LF] _ t eq_refl eq_refl ltac:(cbn in Hn; lia) (cur_ok_lf pre cu Hok Hlc)); [|exact H].
+      apply (Hstep [LF] _ t eq_refl ltac:(cbn in Hn; lia) (cur_ok_lf pre cu Hok Hlc)); [|exact H].
       left. rewrite lastcr_snoc. reflexivity. }
     destruct (c =? CR) eqn:Ec.
     { apply N.eqb_eq in Ec. subst c.
@@ -448,9 +448,9 @@ Proof.
         right. reflexivity.
       - destruct (d =? LF) eqn:Ed.
         + apply N.eqb_eq in Ed. subst d.
-          apply (Hstep 0%nat [CR; LF] _ t' eq_refl eq_refl ltac:(cbn in Hn; lia) (cur_ok_crlf pre cu Hok)); [|exact H].
+          apply (Hstep [CR; LF] _ t' eq_refl ltac:(cbn in Hn; lia) (cur_ok_crlf pre cu Hok)); [|exact H].
           left. unfold lastcr. rewrite rev_app_distr. reflexivity.
-        + apply (Hstep 0%nat [CR] _ (d :: t') eq_refl eq_refl ltac:(cbn in Hn; cbn; lia) (cur_ok_cr pre cu Hok)); [|exact H].
+        + apply (Hstep [CR] _ (d :: t') eq_refl ltac:(cbn in Hn; cbn; lia) (cur_ok_cr pre cu Hok)); [|exact H].
           right. cbn [peek_is]. rewrite N.eqb_sym. exact Ed. }
     inversion H; subst. exists []. rewrite !app_nil_r. split; [reflexivity|]. split; [exact Hok|].
     right. cbn [peek_is]. rewrite N.eqb_sym. exact El.
@@ -472,4 +472,326 @@ Proof.
     + right. destruct lx as [|c r]; [congruence|]. inversion Hc as [|? ? Hc1 _]; subst.
       cbn [app peek_is]. unfold is_lt in Hc1. apply orb_false_iff in Hc1 as [Hc1 _]. rewrite N.eqb_sym. exact Hc1.
   - rewrite lastcr_app_nonempty by exact Hne. apply lastcr_clean; assumption.
+Qed.
+
+(* ---- block strings: line count and line start after the token ---- *)
+Lemma starts3_firstn a b c s : starts3 a b c s = true -> firstn 3 s = [a; b; c].
+Proof.
+  destruct s as [|x [|y [|z t]]]; cbn [starts3]; try discriminate. intros H.
+  apply andb_true_iff in H as [H Hz]. apply andb_true_iff in H as [Hx Hy].
+  apply N.eqb_eq in Hx, Hy, Hz. subst. reflexivity.
+Qed.
+
+Definition block_post (pre : list N) (pos ls : nat) (lines : list (list N)) (s : list N)
+           (e : nat) (raw : list (list N)) (ls' : nat) : Prop :=
+  let x := firstn (e - pos) s in
+  (pos <= e)%nat /\ (e - pos <= length s)%nat /\
+  (count_lt false (pre ++ x) + S (length lines) = count_lt false pre + length raw)%nat /\
+  (ls' + tail_len 0 (pre ++ x) = length (pre ++ x))%nat /\
+  lastcr false (pre ++ x) = false /\ (1 <= length raw)%nat.
+
+Lemma read_block_loop_loc fuel : forall pos ls cur lines s e raw ls' r pre,
+  read_block_loop fuel pos ls cur lines s = Ok (e, raw, ls', r) ->
+  pos = length pre -> (ls + tail_len 0 pre = length pre)%nat -> no_split pre s ->
+  block_post pre pos ls lines s e raw ls'.
+Proof.
+  induction fuel as [|f IH]; intros pos ls cur lines s e raw ls' r pre H Hpos Hls Hns; [discriminate|].
+  cbn [read_block_loop] in H. destruct s as [|c t]; [discriminate|].
+  (* one step: consume [chunk], continue on [rest] *)
+  assert (Hstep : forall (chunk rest : list N) ls1 cur1 (lines1 : list (list N)),
+            c :: t = chunk ++ rest -> chunk <> [] ->
+            read_block_loop f (pos + length chunk) ls1 cur1 lines1 rest = Ok (e, raw, ls', r) ->
+            (count_lt false (pre ++ chunk) + length lines = count_lt false pre + length lines1)%nat ->
+            (ls1 + tail_len 0 (pre ++ chunk) = length (pre ++ chunk))%nat ->
+            no_split (pre ++ chunk) rest ->
+            block_post pre pos ls lines (c :: t) e raw ls').
+  { intros chunk rest ls1 cur1 lines1 Hsplit Hne Hrec Hcnt Hls1 Hns1.
+    assert (Hp1 : (pos + length chunk)%nat = length (pre ++ chunk)) by (rewrite app_length; lia).
+    destruct (IH _ _ _ _ _ _ _ _ _ (pre ++ chunk) Hrec Hp1 Hls1 Hns1) as (Hle & Hlen & Hc & Ht & Hl & Hr1).
+    assert (Hx : firstn (e - pos) (c :: t) = chunk ++ firstn (e - (pos + length chunk)) rest).
+    { rewrite Hsplit. replace (e - pos)%nat with (length chunk + (e - (pos + length chunk)))%nat by lia.
+      rewrite firstn_add. rewrite firstn_app_length.
+      f_equal. f_equal. clear. induction chunk; cbn; auto. }
+    unfold block_post. cbv zeta. rewrite Hx. rewrite app_assoc.
+    split; [lia|]. split; [rewrite Hsplit, app_length; lia|].
+    split; [lia|]. split; [exact Ht|]. split; [exact Hl|exact Hr1]. }
+  destruct (starts3 34 34 34 (c :: t)) eqn:E3.
+  { inversion H; subst. pose proof (starts3_length _ _ _ _ E3) as Hl3.
+    unfold block_post. cbv zeta. replace (length pre + 3 - length pre)%nat with 3%nat by lia.
+    rewrite (starts3_firstn _ _ _ _ E3).
+    assert (Hcl : clean [34; 34; 34]) by (repeat constructor).
+    split; [lia|]. split; [exact Hl3|]. cbn [length rev]. rewrite app_length.
+    split.
+    - rewrite count_lt_app by (right; reflexivity). rewrite (count_lt_clean false _ Hcl).
+      cbn [length]. rewrite rev_length. cbn [length]. lia.
+    - split.
+      + rewrite tail_len_app, tail_len_clean by exact Hcl. rewrite app_length. cbn [length]. lia.
+      + split; [rewrite lastcr_app_nonempty by discriminate; reflexivity|].
+        rewrite rev_length. cbn [length]. lia. }
+  destruct ((c =? 92) && starts3 34 34 34 t) eqn:Eb.
+  { apply andb_true_iff in Eb as [Ec Eq]. apply N.eqb_eq in Ec. subst c.
+    pose proof (starts3_firstn _ _ _ _ Eq) as Hf3. pose proof (starts3_length _ _ _ _ Eq) as Hl3.
+    assert (Hsp : 92 :: t = [92; 34; 34; 34] ++ skipn 4 (92 :: t)).
+    { cbn [skipn]. rewrite <- (firstn_skipn 3 t) at 1. rewrite Hf3. reflexivity. }
+    assert (Hcl : clean [92; 34; 34; 34]) by (repeat constructor).
+    apply (Hstep [92; 34; 34; 34] (skipn 4 (92 :: t)) ls (34 :: 34 :: 34 :: cur) lines Hsp ltac:(discriminate)).
+    - exact H.
+    - rewrite count_lt_app by (right; reflexivity). rewrite (count_lt_clean false _ Hcl). lia.
+    - rewrite tail_len_app, tail_len_clean, app_length by exact Hcl. cbn [length]. lia.
+    - left. rewrite lastcr_app_nonempty by discriminate. reflexivity. }
+  destruct (c =? LF) eqn:El.
+  { apply N.eqb_eq in El. subst c.
+    assert (Hlc : lastcr false pre = false).
+    { destruct Hns as [Hx|Hx]; [exact Hx|]. cbn [peek_is] in Hx. rewrite N.eqb_refl in Hx. discriminate. }
+    apply (Hstep [LF] t (S pos) [] (rev cur :: lines) eq_refl ltac:(discriminate)).
+    - replace (pos + length [LF])%nat with (S pos) by (cbn; lia). exact H.
+    - rewrite count_lt_app by (left; exact Hlc). cbn. lia.
+    - rewrite tail_snoc_lt by reflexivity. rewrite app_length. cbn [length]. lia.
+    - left. rewrite lastcr_snoc. reflexivity. }
+  destruct (c =? CR) eqn:Ec.
+  { apply N.eqb_eq in Ec. subst c.
+    destruct (peek_is (N.eqb LF) t) eqn:Epl.
+    - destruct t as [|d t']; [discriminate|]. cbn [peek_is] in Epl. apply N.eqb_eq in Epl. subst d. cbn [tl] in H.
+      apply (Hstep [CR; LF] t' (pos + 2)%nat [] (rev cur :: lines) eq_refl ltac:(discriminate)).
+      + exact H.
+      + rewrite count_lt_app by (right; reflexivity). cbn. lia.
+      + rewrite tail_len_app. cbn. rewrite app_length. cbn [length]. lia.
+      + left. unfold lastcr. rewrite rev_app_distr. reflexivity.
+    - apply (Hstep [CR] t (S pos) [] (rev cur :: lines) eq_refl ltac:(discriminate)).
+      + replace (pos + length [CR])%nat with (S pos) by (cbn; lia). exact H.
+      + rewrite count_lt_app by (right; reflexivity). cbn. lia.
+      + rewrite tail_snoc_lt by reflexivity. rewrite app_length. cbn [length]. lia.
+      + right. exact Epl. }
+  destruct (is_scalar c).
+  { apply (Hstep [c] t ls (c :: cur) lines eq_refl ltac:(discriminate)).
+    - replace (pos + length [c])%nat with (S pos) by (cbn; lia). exact H.
+    - rewrite count_snoc_plain by assumption. lia.
+    - rewrite tail_snoc_plain, app_length by assumption. cbn [length]. lia.
+    - left. rewrite lastcr_snoc. exact Ec. }
+  destruct (is_lead c && peek_is is_trail t) eqn:Ep; [|discriminate].
+  apply andb_true_iff in Ep as [_ Ep]. destruct t as [|d t']; [discriminate|]. cbn [peek_is] in Ep. cbn [hd tl] in H.
+  assert (Hd : (d =? CR) = false /\ (d =? LF) = false).
+  { unfold is_trail in Ep. apply andb_true_iff in Ep as [E1 _]. apply N.leb_le in E1.
+    unfold CR, LF. split; apply N.eqb_neq; lia. }
+  destruct Hd as [Hd1 Hd2].
+  assert (Hcl : clean [c; d]).
+  { constructor; [unfold is_lt; rewrite El, Ec; reflexivity|].
+    constructor; [unfold is_lt; rewrite Hd2, Hd1; reflexivity|constructor]. }
+  apply (Hstep [c; d] t' ls (d :: c :: cur) lines eq_refl ltac:(discriminate)).
+  - exact H.
+  - rewrite count_lt_app by (right; cbn [peek_is]; rewrite N.eqb_sym; exact El).
+    rewrite (count_lt_clean false _ Hcl). lia.
+  - rewrite tail_len_app, tail_len_clean, app_length by exact Hcl. cbn [length]. lia.
+  - left. rewrite lastcr_app_nonempty by discriminate. unfold lastcr. cbn. exact Hd1.
+Qed.
+
+(* ---- one token ---- *)
+Definition tok_loc (pre s : list N) (cu : cursor) (tk : token) (cu' : cursor) (s' : list N) : Prop :=
+  exists ign lx,
+    s = ign ++ lx ++ s' /\ tstart tk = length (pre ++ ign) /\
+    tline tk = S (count_lt false (pre ++ ign)) /\ tcol tk = S (tail_len 0 (pre ++ ign)) /\
+    cur_ok (pre ++ ign ++ lx) cu' /\ no_split (pre ++ ign ++ lx) s'.
+
+Lemma punct_not_lt c k : punct_kind c = Some k -> is_lt c = false.
+Proof.
+  unfold punct_kind, is_lt, LF, CR. intros H. apply orb_false_iff.
+  split; apply N.eqb_neq; intros ->; vm_compute in H; discriminate.
+Qed.
+
+Lemma name_start_not_lt c : is_name_start c = true -> is_lt c = false.
+Proof.
+  unfold is_name_start, is_letter, is_lt, LF, CR. intros H. apply orb_false_iff.
+  split; apply N.eqb_neq; intros ->; vm_compute in H; discriminate.
+Qed.
+
+Lemma mk_loc k cu start stop v pre1 : cur_ok pre1 cu -> start = cpos cu ->
+  tline (mk k cu start stop v) = S (count_lt false pre1) /\
+  tcol (mk k cu start stop v) = S (tail_len 0 pre1) /\ tstart (mk k cu start stop v) = length pre1.
+Proof.
+  intros (Hp & Hl & Hs) ->. unfold mk. cbn [tline tcol tstart]. repeat split; lia.
+Qed.
+
+Lemma adv_firstn_split s n r : adv s n r -> s = firstn n s ++ r.
+Proof. apply adv_split. Qed.
+
+Lemma comment_body_app_n n : forall s a r, (length s <= n)%nat ->
+  comment_body s = (a, r) -> s = a ++ r.
+Proof.
+  induction n as [|n IH]; intros s a r Hn H.
+  - destruct s; [|cbn in Hn; lia]. cbn in H. inversion H. reflexivity.
+  - destruct s as [|c t]; [cbn in H; inversion H; reflexivity|].
+    cbn in H. destruct ((c =? LF) || (c =? CR)); [inversion H; reflexivity|].
+    destruct (is_scalar c).
+    + destruct (comment_body t) as [a' r'] eqn:E. inversion H; subst.
+      cbn. f_equal. apply IH; [cbn in Hn; lia|exact E].
+    + destruct t as [|d t']; [inversion H; reflexivity|].
+      destruct (is_lead c && is_trail d).
+      * destruct (comment_body t') as [a' r'] eqn:E. inversion H; subst.
+        cbn. do 2 f_equal. apply IH; [cbn in Hn; lia|exact E].
+      * inversion H. reflexivity.
+Qed.
+
+Lemma comment_body_app s a r : comment_body s = (a, r) -> s = a ++ r.
+Proof. apply (comment_body_app_n (length s)). lia. Qed.
+
+Lemma read_token_loc pre cu s tk cu' s' :
+  cur_ok pre cu -> no_split pre s -> read_token cu s = Ok (tk, cu', s') ->
+  tok_loc pre s cu tk cu' s'.
+Proof.
+  intros Hok Hns H. unfold read_token in H.
+  destruct (skip_ignored cu s) as [cu1 s1] eqn:Esk.
+  destruct (skip_cur_ok _ _ _ _ _ Hok Hns Esk) as (ign & Es & Hok1 & Hns1).
+  pose proof Hok1 as (Hp1 & Hl1 & Hs1). subst s.
+  (* wrap-up for a clean lexeme lx = firstn n s1 *)
+  assert (W : forall k v n, adv s1 n s' -> (1 <= n)%nat -> clean (firstn n s1) ->
+            tk = mk k cu1 (cpos cu1) (cpos cu1 + n) v ->
+            cu' = mkCur (cpos cu1 + n) (cline cu1) (cls cu1) ->
+            tok_loc pre (ign ++ s1) cu tk cu' s').
+  { intros k v n An Hn Hcl -> ->.
+    exists ign, (firstn n s1). pose proof (adv_split _ _ _ An) as Esp.
+    assert (Hlen : length (firstn n s1) = n) by (apply firstn_length_le; destruct An; lia).
+    assert (Hne : firstn n s1 <> []) by (intros E; rewrite E in Hlen; cbn in Hlen; lia).
+    destruct (mk_loc k cu1 (cpos cu1) (cpos cu1 + n) v (pre ++ ign) Hok1 eq_refl) as (M1 & M2 & M3).
+    split; [f_equal; exact Esp|]. split; [exact M3|]. split; [exact M1|]. split; [exact M2|].
+    rewrite !app_assoc.
+    destruct (cur_ok_clean (pre ++ ign) cu1 (firstn n s1) (cpos cu1 + n) Hok1 Hcl Hne ltac:(lia)) as [C1 C2].
+    split; [exact C1|left; exact C2]. }
+  destruct s1 as [|c t].
+  { inversion H; subst. exists ign, []. cbn [app]. rewrite !app_nil_r.
+    destruct (mk_loc K_EOF cu' (cpos cu') (cpos cu') None (pre ++ ign) Hok1 eq_refl) as (M1 & M2 & M3).
+    split; [reflexivity|]. split; [exact M3|]. split; [exact M1|]. split; [exact M2|].
+    split; [exact Hok1|right; reflexivity]. }
+  destruct (c =? 35) eqn:E35.
+  { destruct (comment_body t) as [b r] eqn:Ec. inversion H; subst.
+    pose proof (comment_body_adv _ _ _ Ec) as Ab. pose proof (comment_body_clean _ _ _ Ec) as Cb.
+    pose proof (comment_body_app _ _ _ Ec) as Et.
+    apply (W K_COMMENT (Some b) (1 + length b)%nat).
+    - apply adv_cons. exact Ab.
+    - lia.
+    - cbn [firstn plus]. constructor; [apply N.eqb_eq in E35; subst c; reflexivity|].
+      rewrite Et, firstn_app_length. exact Cb.
+    - f_equal; lia.
+    - f_equal; lia. }
+  destruct (c =? 34) eqn:E34.
+  { apply N.eqb_eq in E34. subst c.
+    destruct (starts2 34 34 t) eqn:Eqq.
+    - (* block string *)
+      cbv zeta in H.
+      destruct (read_block_loop (S (length (skipn 2 t))) (cpos cu1 + 3) (cls cu1) [] [] (skipn 2 t))
+        as [[[[e raw] ls'] rest]| | |] eqn:Eb; try discriminate.
+      inversion H; subst.
+      pose proof (starts2_length _ _ _ Eqq) as Hl2.
+      assert (Ht : t = [34; 34] ++ skipn 2 t).
+      { destruct t as [|x [|y r]]; cbn in Eqq; try discriminate.
+        apply andb_true_iff in Eqq as [E1 E2]. apply N.eqb_eq in E1, E2. subst. reflexivity. }
+      set (pre3 := (pre ++ ign) ++ [34; 34; 34]).
+      assert (Hc3 : clean [34; 34; 34]) by (repeat constructor).
+      assert (Hp3 : (cpos cu1 + 3)%nat = length pre3) by (unfold pre3; rewrite app_length; cbn [length]; lia).
+      assert (Hls3 : (cls cu1 + tail_len 0 pre3 = length pre3)%nat).
+      { unfold pre3. rewrite tail_len_app, tail_len_clean, app_length by exact Hc3. cbn [length]. lia. }
+      assert (Hns3 : no_split pre3 (skipn 2 t)).
+      { left. unfold pre3. rewrite lastcr_app_nonempty by discriminate. reflexivity. }
+      destruct (read_block_loop_loc _ _ _ _ _ _ _ _ _ _ pre3 Eb Hp3 Hls3 Hns3) as (Hle & Hlen & Hc & Htl & Hlc & Hraw1).
+      set (x := firstn (e - (cpos cu1 + 3)) (skipn 2 t)) in *.
+      pose proof (read_block_loop_spec (S (length (skipn 2 t))) (cpos cu1 + 3) (cls cu1) [] [] (skipn 2 t) ltac:(lia)) as Hsp.
+      rewrite Eb in Hsp. destruct Hsp as (k & Hek & Ak & Hk3).
+      assert (Hxk : (e - (cpos cu1 + 3))%nat = k) by lia.
+      pose proof (adv_split _ _ _ Ak) as Esplit. rewrite <- Hxk in Esplit. fold x in Esplit.
+      exists ign, ([34; 34; 34] ++ x).
+      destruct (mk_loc K_BLOCK_STRING cu1 (cpos cu1) e (Some (join_lf (dedent raw))) (pre ++ ign) Hok1 eq_refl) as (M1 & M2 & M3).
+      split.
+      { f_equal. rewrite Ht at 1. rewrite Esplit at 1. cbn [app]. reflexivity. }
+      split; [exact M3|]. split; [exact M1|]. split; [exact M2|].
+      assert (Hpre : pre ++ ign ++ [34; 34; 34] ++ x = pre3 ++ x).
+      { unfold pre3. rewrite <- !app_assoc. reflexivity. }
+      rewrite Hpre. split.
+      + unfold cur_ok. cbn [cpos cline cls].
+        assert (Hc3' : count_lt false pre3 = count_lt false (pre ++ ign)).
+        { unfold pre3. rewrite count_lt_app by (right; reflexivity). rewrite (count_lt_clean false _ Hc3). lia. }
+        cbn [length] in Hc. rewrite app_length in *.
+        assert (Hxl : length x = k).
+        { unfold x. rewrite Hxk. apply firstn_length_le. destruct Ak; lia. }
+        repeat split; try lia.
+      + left. exact Hlc.
+    - (* quoted string *)
+      destruct (read_string_loop (S (length t)) (S (cpos cu1)) [] t) as [[[e v] rest]| | |] eqn:Est; try discriminate.
+      inversion H; subst.
+      pose proof (read_string_loop_spec (S (length t)) (S (cpos cu1)) [] t ltac:(lia)) as Hsp.
+      rewrite Est in Hsp. destruct Hsp as (k & -> & Ak & Hk).
+      apply read_string_loop_clean in Est as [Hcl _].
+      replace (S (cpos cu1) + k - S (cpos cu1))%nat with k in Hcl by lia.
+      apply (W K_STRING (Some v) (1 + k)%nat).
+      + apply adv_cons. exact Ak.
+      + lia.
+      + cbn [firstn plus]. constructor; [reflexivity|exact Hcl].
+      + f_equal; lia.
+      + f_equal; lia. }
+  destruct (punct_kind c) as [k|] eqn:Epk.
+  { inversion H; subst. apply (W k None 1%nat).
+    - apply adv_cons, adv_0.
+    - lia.
+    - cbn. constructor; [eapply punct_not_lt; eauto|constructor].
+    - f_equal; lia.
+    - f_equal; lia. }
+  destruct (is_digit c || (c =? 45)) eqn:Ed.
+  { destruct (read_number (cpos cu1) (c :: t)) as [[[e fl] rest]| | |] eqn:En; try discriminate.
+    inversion H; subst.
+    pose proof (read_number_adv _ _ _ _ _ En) as (k' & Hek' & _ & Hk').
+    apply read_number_nadv in En as (k & Hek & [Ak Ck]).
+    assert (k = k') by lia. subst k'. subst e. rename Hk' into Hk.
+    apply (W (if fl then K_FLOAT else K_INT) (Some (firstn (cpos cu1 + k - cpos cu1) (c :: t))) k).
+    - exact Ak.
+    - exact Hk.
+    - apply nclean_clean. exact Ck.
+    - f_equal.
+    - reflexivity. }
+  destruct (is_name_start c) eqn:Ens.
+  { destruct (span is_name_continue t) as [b r] eqn:Esp. inversion H; subst.
+    pose proof (span_adv _ _ _ _ Esp) as Ab. pose proof (span_spec _ _ _ _ Esp) as (Et & _ & _).
+    apply (W K_NAME (Some (c :: b)) (1 + length b)%nat).
+    - apply adv_cons. exact Ab.
+    - lia.
+    - cbn [firstn plus]. constructor; [apply name_start_not_lt; exact Ens|].
+      rewrite Et, firstn_app_length. eapply span_clean; [|exact Esp]. exact name_continue_not_lt.
+    - f_equal; lia.
+    - f_equal; lia. }
+  destruct (c =? 46) eqn:E46; [|discriminate].
+  destruct (starts2 46 46 t) eqn:Edd; [|discriminate]. inversion H; subst.
+  pose proof (starts2_length _ _ _ Edd) as Hl2.
+  apply (W K_SPREAD None 3%nat).
+  - change 3%nat with (1 + 2)%nat. apply adv_cons. apply adv_skipn. exact Hl2.
+  - lia.
+  - apply N.eqb_eq in E46. subst c.
+    destruct t as [|x [|y r]]; cbn in Edd; try discriminate.
+    apply andb_true_iff in Edd as [E1 E2]. apply N.eqb_eq in E1, E2. subst. cbn. repeat constructor.
+  - f_equal; lia.
+  - f_equal; lia.
+Qed.
+
+(* ---- all tokens ---- *)
+Lemma lex_loop_loc fuel : forall pre cu s ts,
+  cur_ok pre cu -> no_split pre s -> lex_loop fuel cu s = Ok ts ->
+  Forall (fun t => (tline t, tcol t) = get_location (pre ++ s) (tstart t)) ts.
+Proof.
+  induction fuel as [|f IH]; intros pre cu s ts Hok Hns H; [discriminate|].
+  cbn [lex_loop] in H.
+  destruct (read_token cu s) as [[[tk cu'] s']| | |] eqn:Et; try discriminate.
+  destruct (read_token_loc _ _ _ _ _ _ Hok Hns Et) as (ign & lx & Es & Hst & Hln & Hcol & Hok' & Hns').
+  assert (Htk : (tline tk, tcol tk) = get_location (pre ++ s) (tstart tk)).
+  { rewrite get_location_is_spec. unfold location_spec. cbv zeta.
+    rewrite Hst, Es. rewrite app_assoc. rewrite firstn_app_length. rewrite Hln, Hcol. reflexivity. }
+  destruct (tkind tk =? K_EOF).
+  - inversion H; subst. constructor; [exact Htk|constructor].
+  - destruct (lex_loop f cu' s') as [ts'| | |] eqn:Er; try discriminate. inversion H; subst.
+    constructor; [exact Htk|].
+    specialize (IH (pre ++ ign ++ lx) cu' s' ts' Hok' Hns' Er).
+    rewrite <- !app_assoc in IH. exact IH.
+Qed.
+
+Theorem token_locations s ts : lex s = Ok ts ->
+  Forall (fun t => (tline t, tcol t) = get_location s (tstart t)) ts.
+Proof.
+  unfold lex. intros H.
+  apply (lex_loop_loc (S (length s)) [] init_cursor s ts); [|left; reflexivity|exact H].
+  unfold cur_ok, init_cursor. cbn. repeat split; lia.
 Qed.
